@@ -29,7 +29,10 @@ def build_scenario(rng: random.Random, mode: str):
     tps = rng.choice([1, 2, 4, 5, 10])
     U = 4 * tps
     Q = F(5, tps)            # the quantum: 20 units, a quarter of the memory read in one I/O tick; a*Q is an exact float
-    if mode == "pressure":
+    if mode == "swarm":        # many small containers start at once in an overcommitted pool: ten and more victims in one tick
+        npools, cpu, ram = 1, rng.choice([16, 24, 32]), Q * rng.choice([16, 24, 32, 48])
+        oc, multi = True, False
+    elif mode == "pressure":
         npools, cpu, ram = rng.choice([1, 1, 2]), rng.choice([4, 6, 8]), Q * rng.choice([8, 12, 16, 24, 40])
         oc, multi = True, rng.random() < 0.5
     elif mode == "susp":
@@ -45,10 +48,10 @@ def build_scenario(rng: random.Random, mode: str):
                   allow_memory_overcommit=oc, multi_operator_containers=multi)
     idx = PipeIndex()
     exact = {}
-    npipes = rng.randint(2, 6) if mode == "pressure" else rng.randint(1, 4)
+    npipes = rng.randint(2, 6) if mode == "pressure" else rng.randint(14, 30) if mode == "swarm" else rng.randint(1, 4)
     for pi in range(npipes):
         p = Pipeline(f"p{pi + 1}", rng.choice(list(Priority)))
-        nops = rng.randint(1, 3) if mode == "pressure" else rng.randint(2, 4) if mode == "susp" else rng.randint(1, 4)
+        nops = rng.randint(1, 3) if mode == "pressure" else rng.randint(2, 4) if mode == "susp" else 1 if mode == "swarm" else rng.randint(1, 4)
         ops = []
         for i in range(nops):
             pa = [j for j in range(i) if rng.random() < (0.3 if mode == "pressure" else 0.5)]
@@ -58,7 +61,11 @@ def build_scenario(rng: random.Random, mode: str):
                 base = F(4 * rng.choice([0, 1, 3, 5, 9, 15]) + 1, 4 * tps)   # (k + 1/4) ticks on one cpu: never on a boundary
                 if rng.random() < 0.2:
                     base = F(0)
-                if mode == "pressure":
+                if mode == "swarm":
+                    fixed = Q * rng.choice([2, 3, 4, 5, 6, 8])
+                    kk = 0
+                    base = F(4 * rng.choice([2, 3, 5]) + 1, 4 * tps)
+                elif mode == "pressure":
                     fixed = rng.choice([None, None, None, Q, 3 * Q])
                     kk = rng.choice([1, 2, 3, 4, 6, 8])
                 elif mode == "susp":
@@ -84,12 +91,16 @@ def run_one(seed: int, tid: int, mode: str):
     from eudoxia.workload import OperatorState as S
 
     rng = random.Random(seed)
+    # container ids come from a process-global public counter: start each trace at a small or a digit-boundary value, so that ids of
+    # different lengths (c9/c10, c1/c12) coexist as they do in a fresh process
+    from eudoxia.executor.container import Container
+    Container.next_container_num = rng.choice([1, 1, 1, 8, 97, 995])
     ex, idx, exact, k = build_scenario(rng, mode)
     tps, npools, cpu, ram, oc, multi = k["tps"], k["npools"], k["cpu"], k["ram"], k["oc"], k["multi"]
     tr = ExecTrace(tid, ex, idx, k["U"], tps, mode="step", exact=exact, overcommit=oc, multi=multi,
                    meta={"seed": seed, "driver": "B", "mode": mode})
     valid = mode != "mixed"
-    nticks = rng.randint(5, 40)
+    nticks = rng.randint(5, 40) if mode != "swarm" else rng.randint(6, 14)
     pipes = list(zip(idx.pipes, idx.ops))
     seen_ctr = []   # real container ids seen so far (for bogus suspends)
     for t in range(nticks):
@@ -110,7 +121,7 @@ def run_one(seed: int, tid: int, mode: str):
         if not valid and rng.random() < 0.02 and seen_ctr:
             sus.append(Suspend(rng.choice(seen_ctr + ["c0"]), rng.randrange(npools)))   # any container ever seen / unknown
         specs = []
-        for _ in range(rng.choice([0, 0, 1, 1, 2] if mode != "pressure" else [0, 1, 1, 2, 3])):
+        for _ in range(rng.choice([0, 0, 1, 1, 2]) if mode not in ("pressure", "swarm") else rng.choice([0, 1, 1, 2, 3]) if mode == "pressure" else rng.choice([0, 6, 12, 16])):
             pi = rng.randrange(len(pipes))
             p, ops = pipes[pi]
             legal = [i for i, o in enumerate(ops) if o.state() in (S.PENDING, S.FAILED)]
@@ -137,7 +148,10 @@ def run_one(seed: int, tid: int, mode: str):
             pool = rng.randrange(npools) if valid or rng.random() < 0.97 else rng.choice([-1, npools, npools + 3])
             R = ex.pools[pool] if 0 <= pool < npools else ex.pools[0]
             Q = k["Q"]
-            if mode == "pressure":
+            if mode == "swarm":
+                c = 1
+                r = Q * rng.choice([6, 8, 9, 12, 16, 20, 25, 32])
+            elif mode == "pressure":
                 c = 1
                 r = Q * rng.choice([2, 4, 5, 8, 9, 12, 13, 16, 21, 24, 32, 64])
             elif mode == "susp":
